@@ -343,11 +343,82 @@ def unit_fs_create(clsname):
 
 
 def make_models_for(unit_name):
+    if '.hostname@' in unit_name:
+        return HostnameModels()
     return CreateModels() if '.create' in unit_name else O.OnionModels()
 
 
+class HostnameModels(O.OnionModels):
+    """externals of FilesystemOnionService.hostname: os.path.join (some path), open() succeeding or failing as scripted per call,
+    file.read() giving the file's text"""
+    def callable_(self, ex, path, obj, args, kw):
+        import os
+        if obj is os.path.join:
+            return [(path, VStr(z3.String('hostname_file_path')))]
+        if obj is open:
+            n = len(self.glog(path, 'opens'))
+            self.glog_add(path, 'opens', args[0])
+            script = path.heap.get(('g', 'open_script'), ())
+            if n < len(script) and script[n] == 'missing':
+                return ex.raise_(path, IOError, 'No such file or directory')
+            return [(path, VOpaque('file', 100 + n))]
+        return super(HostnameModels, self).callable_(ex, path, obj, args, kw)
+
+    def method(self, ex, path, recv, name, args, kw):
+        if isinstance(recv, VOpaque) and recv.kind == 'file' and name == 'read':
+            return [(path, VStr(z3.String('hostname_file_text')))]
+        return super(HostnameModels, self).method(ex, path, recv, name, args, kw)
+
+
+def unit_fs_hostname(script):
+    """FilesystemOnionService.hostname, read twice: the address is whatever the hostname file says once it can be read - a read
+    that failed because Tor had not written the file yet does not stick (the upload wait asks on every HS_DESC event)"""
+    def run(ctx):
+        ctx.fn(MODULE, 'FilesystemOnionService.hostname')
+        import txtorcon.onion as onion
+        ex = ctx.ex
+        path = ctx.new_path()
+        svc = ex.new_inst(path, onion.FilesystemOnionService)
+        H = path.heap
+        H[('f', svc.oid, '_hostname')] = NONE
+        H[('f', svc.oid, '_dir')] = VStr(z3.String('hsdir'))
+        H[('g', 'open_script')] = tuple(script)
+        text = z3.String('hostname_file_text')
+        ctx.input('hostname_file_text', VStr(text))
+        ctx.cover('pre_satisfiable', path)
+        states = [(path, [])]
+        for i in range(len(script)):
+            nxt = []
+            for p, seen in states:
+                for p2, r in ex.getattr_v(p, svc, 'hostname'):
+                    if isinstance(r, Raise):
+                        ctx.oblige('no_exception', p2, B(False))
+                        continue
+                    nxt.append((p2, seen + [r]))
+            states = nxt
+        if not states:
+            ctx.oblige('some_normal_exit', path, B(False))
+        from pyvc.models import WS_STR, re_ws
+        for p, seen in states:
+            for i, (how, r) in enumerate(zip(script, seen)):
+                if how == 'missing' and 'present' not in script[:i]:
+                    ctx.oblige('post.no_address_while_the_file_cannot_be_read[%d]' % i, p, B(isinstance(r, VNone)))
+                else:
+                    # the stripped file text (known since the first successful read)
+                    okr = isinstance(r, VStr)
+                    g = B(False)
+                    if okr:
+                        a_, b_ = z3.String('lead_ws'), z3.String('trail_ws')
+                        g = z3.And(z3.Contains(text, r.t), z3.Length(r.t) <= z3.Length(text))
+                    ctx.oblige('post.address_is_the_file_text_once_it_can_be_read[%d]' % i, p, g,
+                               clause='own upload events are recognised by the address Tor assigned (read from the hostname file once Tor has written it)')
+    return run
+
+
 def units():
-    return [('C15/hs_desc@%s' % k, unit_hs_desc(k)) for k in ('UPLOAD', 'UPLOADED', 'FAILED')] + \
+    return [('C15/FilesystemOnionService.hostname@%s' % '_then_'.join(sc), unit_fs_hostname(sc))
+            for sc in (('present',), ('missing', 'present'), ('missing', 'missing', 'present'), ('present', 'missing'))] + \
+        [('C15/hs_desc@%s' % k, unit_hs_desc(k)) for k in ('UPLOAD', 'UPLOADED', 'FAILED')] + \
         [('C15/hs_desc@%s/after_early_event' % k, unit_hs_desc(k, True)) for k in ('UPLOAD', 'UPLOADED', 'FAILED')] + [('C15/coroutine', unit_coroutine())] + \
         [('C15/%s.create' % c, unit_fs_create(c)) for c in ('FilesystemOnionService', 'FilesystemAuthenticatedOnionService')]
 
